@@ -6,13 +6,13 @@
 P=$1; k=$2; lc=$(echo $P | tr A-Z a-z)
 wt=/tmp/seed2_$lc; sd=${wt}_out/$k
 [ -f $sd/patch.diff ] || { echo "no patch in $sd"; exit 3; }
-out=$(/verif/tools/confirmseed.sh $wt $sd "sh $sd/run_demo.sh")
+if [ -n "$CONFIRMLOG" ] && grep -q "CONFIRM $sd: clean demo exit=0; patched: build rc=0, suite: # PASS: 89 # FAIL: 0 *demo exit=[1-9]" "$CONFIRMLOG"; then
+  out=$(grep "CONFIRM $sd:" "$CONFIRMLOG" | head -1)
+else
+  out=$(/verif/tools/confirmseed.sh $wt $sd "sh $sd/run_demo.sh")
+fi
 echo "$out"
-case "$out" in
-  *"clean demo exit=0; patched: build rc=0, suite: # PASS: 89 # FAIL: 0 demo exit=0"*) echo "NOT CONFIRMED (demo passes with patch)"; exit 4;;
-  *"clean demo exit=0; patched: build rc=0, suite: # PASS: 89 # FAIL: 0 demo exit="*) ;;
-  *) echo "NOT CONFIRMED"; exit 4;;
-esac
+echo "$out" | grep -q "clean demo exit=0; patched: build rc=0, suite: # PASS: 89 # FAIL: 0 *demo exit=[1-9]" || { echo "NOT CONFIRMED"; exit 4; }
 python3 /verif/tools/saveseed.py $P $k $sd "PENDING evaluation" "see notes.txt" >/dev/null
 python3 - <<EOF
 import json
